@@ -350,6 +350,11 @@ def run(ctx):
     from contracts import c_import, c_qualname
     ctx.verify(c_qualname.engine(), c_qualname.VERIFY, min_obligations={c_qualname.KEY: 10})
     ctx.verify(c_import.engine(), c_import.VERIFY, min_obligations={c_import.KEY: 10})
+    from contracts import c_importparams as cip
+    ctx.verify(cip.engine(), cip.VERIFY, replay=cip.replay,
+               min_obligations={cip.K_DIR: 5, cip.K_PRE: 22, cip.K_VAL: 6})
+    for nm, asm, goal in cip.roundtrip_lemmas():
+        ctx.lemma(nm + " (over the contracts of the export side and of the import side)", asm, goal)
     asm, goal = c_import.roundtrip_lemma()
     ctx.lemma("slice-roundtrip: import(export(slice)) selects the same bits (over the contracts of export_slice, "
               "import_connection_target and _slice_inner)", asm, goal)
